@@ -50,7 +50,7 @@ Print Assumptions C04_regenerated_filter.
    pred_restore), the collation tree filters the whole tree on the original bytes (the model's key AC o c also carries
    the sort key, which the Go side does not return: forget_col); budgets: the model's for All, any budget above the
    tree size for filter, above the height and the prefix length for lowestCommonParent *)
-From GoArt Require Import Model.Api Model.PoolTree Proofs.PoolTreeFacts Model.GoTree Gen.ApiGen Proofs.TranslateApiFacts.
+From GoArt Require Import Model.Api Model.PoolTree Proofs.PoolTreeFacts Model.GoTree Gen.ApiGen Proofs.TranslateApiBase Proofs.TranslateApiPrefix.
 Theorem C04_regenerated_alpha_Prefix : forall tr st p ans fa ff fl, sinv st -> root_wf (sabs st) -> keys_ok nonempty_key st ->
   isbytes p = true ->
   (forall t, xroot st = Some t -> fa = walk_fuel (tabs t) /\ (tsize (tabs t) < ff)%nat /\
